@@ -30,10 +30,12 @@
 //     differing contexts / statements must fail at some round (observed: the prover's Round4).
 //  6. extractor: only the maurer09-based protocols (Schnorr, Okamoto, elcomop, nthroot) expose one;
 //     for the others two accepting transcripts on one commitment are checked, nothing more.
-//  7. C08-nil-component-panic (catalogued, known): the operators null / map-drop whose Verify panics
-//     with a nil dereference are excluded; on and^n(or^m(..)) and or^n(andc(..)) shapes these two
-//     operators are not executed at all (the dereference would happen in an errgroup goroutine and
-//     kill the process).
+//  7. C08-nil-component-panic (catalogued, known): WHILE a once-per-process probe (five small proofs with one
+//     nested component set to null, verified under recover) finds it present, the operators null / map-drop whose
+//     Verify panics with a nil dereference are excluded, and on and^n(or^m(..)) and or^n(andc(..)) shapes these two
+//     operators are not executed at all (the dereference would happen in an errgroup goroutine and kill the
+//     process). Once the probe finds it absent the exclusion disables itself: every operator runs on every shape
+//     under the normal oracle and vlib.Known reports the finding as absent.
 //  8. not covered: cggmp21 encelg; Fischlin / randomised Fischlin for the Paillier / CGGMP21
 //     protocols except nthroot (cost); session ids cannot differ while the transcript is equal
 //     (both derive from the common seed), so "omit the session id from the domain separator" is
